@@ -18,6 +18,10 @@ pub const K2_SIG: &str = "K2:enum-garbage-plus-comma-is-viable-prefix";
 const DIRECTED_G: &[&str] = &[
     "@X (", "@X ( a", "@X ( a = 1", "@Y @X ( a , b", "@X ( a ,", "x @X (", "@X ( a = \"s\"", "= 3", "a b", "1", "( )", "[ ]", "< >", "void", "in x", "for",
     "@X ( ) ( )", "a . ", ". a", "a = = 1", "const", "oneway", "List <", "Map < String ,", "a [ ]", "@",
+    // members broken off at every point of their own syntax (the recovery must not reach into the next sibling)
+    "void f (", "void f ( in", "int f ( int x ,", "void f ( @A", "void f ( int", "void f ( int x", "void f ( )  =", "void f ( ) = 1 2", "void f ( ) )", "void f",
+    "Foo f (", "a . b f ( in a . b", "oneway void f (", "@A void f ( in", "const int", "const int K", "const int K =", "const int K = {", "const int K = { 1 ,",
+    "int x =", "int x = {", "List < int", "List < int >", "Map < String , int", "Foo [", "Foo [ ] [", "f ( )", "void ( )", "A =", "A = =", "A B", "@A ( x = )",
 ];
 
 fn garbage(rng: &mut Rng, kind: ItemKind) -> Vec<String> {
